@@ -14,6 +14,7 @@ struct Value {
   uint64_t u = 0;            // fixed-size scalars: raw bits, zero-extended
   std::string s;             // s/o/g: payload;  a: element signature;  others: unused
   std::vector<Value> kids;   // a: elements; ( fields; { key,value; v: exactly one
+  uint64_t big = 0;          // a of fixed type longer than 256 KiB: element count; u = FNV fold of the element values, kids empty
   std::string sig() const;
   bool operator==(const Value& o) const;
   bool operator!=(const Value& o) const { return !(*this == o); }
